@@ -417,6 +417,8 @@ func checkC05(c *Ctx) {
 	checkNoDiscardingSockopt(c, "R6")
 	c.Rule("R7", "every goroutine started in a loop (the accept loop) gets that iteration's values: no closure captures a variable declared outside the loop and assigned inside it")
 	checkLoopGoroutineCapture(c, "R7")
+	c.Rule("R10", "connection wrappers keep the half-close: every module type that embeds net.Conn declares CloseWrite and CloseRead")
+	checkConnWrappersKeepHalfClose(c, "R10")
 	c.Rule("R9", "connection objects are not recycled: no value of a type implementing net.Conn is put into a sync.Pool (its other holders - the opposite direction, the deferred Close calls - would act on an unrelated session)")
 	checkNoPooledConn(c, "R9")
 	c.Rule("R8", "a session is bound to the host it is connected to (shared with C06.R1/R5): the host whose removal closes the session, and whose counters it changes, is the host every dial of the session goes to - otherwise removing another host cuts a healthy stream in the middle")
@@ -612,6 +614,24 @@ func checkNoDiscardingSockopt(c *Ctx, rule string) {
 			}
 		}
 	}
+	// the relay sets no option that lets the kernel give up an established connection on its own: TCP_USER_TIMEOUT
+	// also bounds zero-window probing, so a backend that is alive but does not read for that long while data is queued
+	// gets its connection reset and the client's stream is cut (the Redis upstream, a request/response protocol with
+	// its own error replies, uses it on purpose; the byte relay must not)
+	for _, fn := range p.FuncsIn("proc/tcp") {
+		if p.isTestFn(fn) {
+			continue
+		}
+		eachInstr(fn, func(_ *ssa.BasicBlock, _ int, in ssa.Instruction) {
+			cc := callOf(in)
+			if cc == nil {
+				return
+			}
+			if g := calleeFn(cc); g != nil && (g.Name() == "SetTCPUserTimeout" || strings.Contains(g.Name(), "UserTimeout")) {
+				c.Fail(rule, "no user timeout on relayed connections in "+fnKey(fn), in.Pos(), "TCP_USER_TIMEOUT is set on a relayed connection: the kernel aborts the connection when the peer makes no read progress for that long while data is queued (zero-window probes are answered, the peer is alive) - the tail of the stream is lost and the peer sees a reset instead of end-of-stream")
+			}
+		})
+	}
 	c.Expect(rule, 5)
 	_ = n
 }
@@ -736,5 +756,59 @@ func checkNoPooledConn(c *Ctx, rule string) {
 	}
 	if nbad == 0 {
 		c.OK(rule, "no connection object is recycled through a pool", token.NoPos, fmt.Sprintf("%d sync.Pool.Put calls in the module examined, none puts a net.Conn implementation", nput))
+	}
+}
+
+// checkConnWrappersKeepHalfClose (C05.R10): the relay half-closes through type assertions (CloseWrite / CloseRead) that
+// silently do nothing when the connection does not offer the method. A wrapper type that embeds the net.Conn
+// interface inherits Read/Write/Close but not the half-close methods of the connection it wraps - wrapped this way, a
+// TCP connection can no longer signal end-of-stream in one direction while the other stays open. Every module type
+// that embeds net.Conn and is a net.Conn itself declares CloseWrite and CloseRead.
+func checkConnWrappersKeepHalfClose(c *Ctx, rule string) {
+	p := c.P
+	n := 0
+	for _, pk := range p.Pkgs {
+		if pk.Types == nil || !strings.HasPrefix(pk.Types.Path(), modPath) || strings.Contains(pk.Types.Path(), "/mock") {
+			continue
+		}
+		sc := pk.Types.Scope()
+		for _, name := range sc.Names() {
+			tn, ok := sc.Lookup(name).(*types.TypeName)
+			if !ok {
+				continue
+			}
+			if strings.HasSuffix(p.Fset.Position(tn.Pos()).Filename, "_test.go") {
+				continue
+			}
+			st, ok := tn.Type().Underlying().(*types.Struct)
+			if !ok {
+				continue
+			}
+			embeds := false
+			for i := 0; i < st.NumFields(); i++ {
+				f := st.Field(i)
+				if f.Embedded() && types.TypeString(f.Type(), nil) == "net.Conn" {
+					embeds = true
+				}
+			}
+			if !embeds {
+				continue
+			}
+			n++
+			ms := types.NewMethodSet(types.NewPointer(tn.Type()))
+			has := func(m string) bool {
+				for i := 0; i < ms.Len(); i++ {
+					if ms.At(i).Obj().Name() == m {
+						return true
+					}
+				}
+				return false
+			}
+			site := fmt.Sprintf("%s.%s keeps the half-close of the connection it wraps", pk.Types.Name(), tn.Name())
+			c.Check(has("CloseWrite") && has("CloseRead"), rule, site, tn.Pos(), "declares CloseWrite and CloseRead", "a type embeds the net.Conn interface without declaring CloseWrite/CloseRead: wrapped in it, a TCP connection loses its half-close - the relay's closeWrite becomes a silent no-op, the peer never sees end-of-stream while its own direction is open, and the session hangs until the idle timeout")
+		}
+	}
+	if n == 0 {
+		c.Unresolved(rule, "no net.Conn wrapper type in the module")
 	}
 }
